@@ -79,6 +79,18 @@ def strip_opt(t):
     return t[1] if is_opt(t) else t
 
 
+def tup(*ts):
+    return ("Tuple", tuple(ts))
+
+
+def is_tuple(t):
+    return isinstance(t, tuple) and t[0] == "Tuple"
+
+
+def is_list(t):
+    return isinstance(t, tuple) and t[0] == "List"
+
+
 def join(a, b, node=None):
     """least upper bound of two types (None = not known yet)"""
     if a == b:
@@ -105,6 +117,8 @@ def lean_ty(t):
         return f"List {inner}" if " " not in inner else f"List ({inner})"
     if isinstance(t, tuple) and t[0] == "Rec":
         return t[1]
+    if is_tuple(t):
+        return " × ".join(lean_ty(x) if " " not in lean_ty(x) else f"({lean_ty(x)})" for x in t[1])
     return t
 
 
@@ -142,6 +156,8 @@ class Translator:
         self.enums = self._read_enums(module)
         self.out = []
         self.dropped = []        # dropped assert isinstance(...)
+        self.casts = []          # typing.cast(T, e) rendered as e
+        self.enum_uses = {}      # `Enum.X` of a non-int enum -> Lean constructor (from the spec)
         self.notes = []
         self.vt = {}             # variable -> type (inference result)
         self.scopes = []         # stack of sets of declared variables
@@ -152,6 +168,7 @@ class Translator:
         self.emitting = False
         self.pure_ret = None     # return type of a pure function
         self.in_loop = 0
+        self.comp_vars = set()   # variables bound by comprehensions (own scope in Python 3)
         self.raising = False     # the expression being translated contains an operation that can raise
 
     # ------------------------------------------------------------------------------------------------ module facts
@@ -171,8 +188,19 @@ class Translator:
     # ------------------------------------------------------------------------------------------------ output helpers
     def emit(self, ind, text, node=None):
         if node is not None and self.emitting:
-            first = self.src_lines[node.lineno - 1].strip()
-            self.out.append("  " * ind + f"-- L{node.lineno}: {first}")
+            # the whole statement (a compound statement: its header up to the line before its body)
+            last = getattr(node, "end_lineno", node.lineno) or node.lineno
+            body = getattr(node, "body", None)
+            if isinstance(body, list) and body and hasattr(body[0], "lineno"):
+                last = max(node.lineno, body[0].lineno - 1)
+                while last > node.lineno and not self.src_lines[last - 1].strip():
+                    last -= 1
+                while last > node.lineno and self.src_lines[last - 1].strip().startswith("#"):
+                    last -= 1
+            for k in range(node.lineno, last + 1):
+                txt = self.src_lines[k - 1].strip()
+                if txt:
+                    self.out.append("  " * ind + f"-- L{k}: {txt}")
         if self.emitting:
             self.out.append("  " * ind + text)
 
@@ -396,12 +424,48 @@ class Translator:
                 return E("_", None)
             t = join(a.ty, b.ty, n)
             return E(f"({f.id} {self.coerce(a, t, n)} {self.coerce(b, t, n)})", t)
+        if isinstance(f, ast.Name) and f.id == "cast" and len(n.args) == 2 and not n.keywords:
+            # typing.cast(T, e) returns e unchanged at run time; the type T is not consulted (the translator infers its own)
+            if not self._imported_from("typing", "cast"):
+                raise Unsupported(n, "`cast` is not typing.cast in this module")
+            note = f"L{n.lineno}: cast({ast.unparse(n.args[0])}, …)"
+            if note not in self.casts:
+                self.casts.append(note)
+            return self.ex(n.args[1])
         if self.pure is not None and isinstance(f, ast.Attribute) and not n.args and not n.keywords:
             rec, obj = self._record_of(f.value)
             if rec is not None and (rec, f.attr) in self.pure.methods:
                 tpl, ty = self.pure.methods[(rec, f.attr)]
                 return E(tpl.format(obj), ty)
+        if self.pure is not None and not n.keywords:
+            # a function / method that is not translated: the spec names the hand-written Lean term that stands for it
+            key, obj = None, ""
+            if isinstance(f, ast.Name) and (None, f.id) in self.pure.calls:
+                key = (None, f.id)
+            elif isinstance(f, ast.Attribute):
+                rec, obj = self._record_of(f.value)
+                key = (rec, f.attr) if rec is not None else None
+            if key in self.pure.calls:
+                tpl, arg_tys, ret, raises = self.pure.calls[key]
+                if len(arg_tys) != len(n.args):
+                    raise Unsupported(n, f"{key[1]} takes {len(arg_tys)} positional argument(s) in the spec")
+                args = []
+                for a, want in zip(n.args, arg_tys):
+                    if isinstance(a, ast.Starred):
+                        raise Unsupported(n, "starred argument")
+                    e = self.ex(a)
+                    args.append("_" if e.ty is None else self.coerce(e, want, n))     # arguments are evaluated left to right
+                if raises:
+                    self.raising = True
+                return E(tpl.format(*args, obj=obj), ret)
         raise Unsupported(n, "call outside the subset")
+
+    def _imported_from(self, module, name):
+        for st in self.module.body:
+            if isinstance(st, ast.ImportFrom) and st.module == module and st.level == 0 \
+                    and any(a.name == name and a.asname in (None, name) for a in st.names):
+                return True
+        return False
 
     def ex_Subscript(self, n):
         # per-slot state read
@@ -463,9 +527,15 @@ class Translator:
                         ast.copy_location(v, st)
                         ast.fix_missing_locations(v)
                         self._bind(st.target.id, self.ex(v).ty, st)
-                    elif isinstance(st, ast.For) and isinstance(st.target, ast.Name):
+                    elif isinstance(st, ast.For):
+                        names, is_tuple_target = self._for_targets(st)
                         it = self._iterable(st.iter)
-                        self._bind(st.target.id, it.ty[1] if it.ty else None, st)
+                        el = it.ty[1] if it.ty else None
+                        if not is_tuple_target:
+                            self._bind(names[0], el, st)
+                        elif is_tuple(el) and len(el[1]) == len(names):
+                            for v, t in zip(names, el[1]):
+                                self._bind(v, t, st)
                     elif isinstance(st, ast.Return) and st.value is not None and self.pure is not None:
                         self.pure_ret = join(self.pure_ret, self.ex(st.value).ty, st)
                 except Unsupported:
@@ -746,23 +816,78 @@ class Translator:
     def _iterable(self, it):
         if isinstance(it, ast.Call) and isinstance(it.func, ast.Name) and it.func.id == "sorted" and len(it.args) == 1 and not it.keywords:
             inner = self._iterable(it.args[0])
-            if inner.ty and inner.ty[1] not in (NAT, INT, None):
-                raise Unsupported(it, "sorted() of non-integers")
-            fn = "Py.sortedNat" if inner.ty and inner.ty[1] == NAT else "Py.sortedInt"
+            el = inner.ty[1] if inner.ty else None
+            if el in (NAT, INT, None):
+                fn = "Py.sortedNat" if el == NAT else "Py.sortedInt"
+            elif el == tup(INT, INT):
+                fn = "Py.sortedIntPair"                                    # tuples compare lexicographically
+            else:
+                raise Unsupported(it, f"sorted() of {lean_ty(el)} (only int and Tuple[int, int] with both components typed Int)")
             return E(f"({fn} {inner.code})", inner.ty)
+        if isinstance(it, (ast.GeneratorExp, ast.ListComp)):
+            return self._comprehension(it)
         e = self.ex(it)
-        if e.ty is not None and not (isinstance(e.ty, tuple) and e.ty[0] == "List"):
+        if e.ty is not None and not is_list(e.ty):
             raise Unsupported(it, "iteration over a non-list")
         return e
+
+    def _comprehension(self, n):
+        """`[f(x) for x in xs]` / `(f(x) for x in xs)` consumed once, in order → `xs.map fun x => f x`; `f(x)` must not raise"""
+        if len(n.generators) != 1:
+            raise Unsupported(n, "nested comprehension")
+        g = n.generators[0]
+        if g.ifs or g.is_async or not isinstance(g.target, ast.Name):
+            raise Unsupported(n, "comprehension with a condition / a non-name target")
+        v = g.target.id
+        src = self._iterable(g.iter)
+        el = src.ty[1] if src.ty else None
+        if v in self.vt and self.vt[v] is not None and v not in self.comp_vars:
+            raise Unsupported(n, f"comprehension variable `{v}` has the name of a local or parameter")
+        self.comp_vars.add(v)
+        self.vt[v] = el
+        self.scopes.append({v})
+        saved, self.raising = self.raising, False
+        try:
+            body = self.ex(n.elt)
+            if self.raising:
+                raise Unsupported(n.elt, "element expression of a comprehension can raise")
+        finally:
+            self.scopes.pop()
+            self.raising = saved
+        if body.ty is None or el is None:
+            return E("_", None)
+        return E(f"({src.code}.map fun {mangle(v)} => {body.code})", ("List", body.ty))
+
+    def _for_targets(self, st):
+        """names bound by the loop target: `v` or `a, b` (a flat tuple of names)"""
+        t = st.target
+        if isinstance(t, ast.Name):
+            return [t.id], False
+        if isinstance(t, ast.Tuple) and t.elts and all(isinstance(e, ast.Name) for e in t.elts):
+            names = [e.id for e in t.elts]
+            if len(set(names)) != len(names):
+                raise Unsupported(st, "a name occurs twice in the loop target")
+            return names, True
+        raise Unsupported(st, "loop target must be a name or a flat tuple of names")
 
     def st_For(self, st, ind):
         if self.slot:
             raise Unsupported(st, "loops in a slot method")
-        if st.orelse or not isinstance(st.target, ast.Name):
-            raise Unsupported(st, "for/else or a non-name loop target")
+        if st.orelse:
+            raise Unsupported(st, "for/else")
+        names, is_tuple_target = self._for_targets(st)
         it = self._iterable(st.iter)
-        self.emit(ind, f"for {mangle(st.target.id)} in {it.code} do", st)
-        self.scopes.append({st.target.id})
+        el = it.ty[1] if it.ty else None
+        if is_tuple_target and not (is_tuple(el) and len(el[1]) == len(names)):
+            raise Unsupported(st, f"cannot unpack elements of type {lean_ty(el)} into {len(names)} names")
+        for v in names:
+            # Python keeps the loop variable alive after the loop; Lean does not: a later use is then 'possibly unbound'.
+            # A loop variable that is also a local declared outside would be *assigned* by Python but *shadowed* in Lean.
+            if self.declared(v):
+                raise Unsupported(st, f"loop variable `{v}` is also a local declared before the loop")
+        pat = mangle(names[0]) if not is_tuple_target else "(" + ", ".join(mangle(v) for v in names) + ")"
+        self.emit(ind, f"for {pat} in {it.code} do", st)
+        self.scopes.append(set(names))
         self.in_loop += 1
         self.block(st.body, ind + 1)
         self.in_loop -= 1
@@ -981,6 +1106,11 @@ class PureSpec:
     binders: str                 # Lean binders of the generated function
     attrs: dict = field(default_factory=dict)      # (record, attribute) -> (Lean template, `{}` = the object; type)
     methods: dict = field(default_factory=dict)    # (record, argument-less method) -> (Lean template, type)
+    # functions / methods WITH arguments that are not translated but stand for a hand-written Lean term:
+    # (record | None for a module-level function, name) -> (template: `{0}`, `{1}` … = arguments, `{obj}` = the object;
+    #                                                        [argument types], result type, can it raise?)
+    calls: dict = field(default_factory=dict)
+    prelude: list = field(default_factory=list)    # hand-written Lean lines emitted before the function (glue named by templates)
 
 
 def translate_pure_function(src: str, func: str, spec: PureSpec, namespace: str, imports, rel_path: str, lean_name=None,
@@ -1015,14 +1145,32 @@ def translate_pure_function(src: str, func: str, spec: PureSpec, namespace: str,
     o.append("    records (python attribute / method ↔ Lean term):")
     for (rec, at), (tpl, ty) in list(spec.attrs.items()) + list(spec.methods.items()):
         o.append(f"      {rec}.{at} ↔ {tpl.format('·') or at} : {lean_ty(ty)}")
+    if spec.calls:
+        o.append("    functions that are not translated (python call ↔ hand-written Lean term; `!` = can raise):")
+        for (rec, fname), (tpl, arg_tys, ret, raises) in spec.calls.items():
+            shown = tpl.format(*[f"‹{k}›" for k in range(len(arg_tys))], obj="·")
+            o.append(f"      {(rec + '.') if rec else ''}{fname}({', '.join(lean_ty(t) for t in arg_tys)}) ↔ {shown} : {lean_ty(ret)}{' !' if raises else ''}")
+    if tr.enum_uses:
+        o.append("    enum members (compared by identity):")
+        o += [f"      {k} ↔ {v}" for k, v in sorted(tr.enum_uses.items())]
     if tr.dropped:
         o.append("    dropped typing assertions:")
         o += [f"      {d}" for d in tr.dropped]
+    if tr.casts:
+        o.append("    typing.cast(T, e) rendered as e (the identity at run time):")
+        o += [f"      {d}" for d in tr.casts]
+    if tr.notes:
+        o.append("    notes:")
+        o += [f"      {d}" for d in tr.notes]
     o.append("-/")
     o.append("set_option linter.unusedVariables false")
     o.append(f"namespace {namespace}")
     o.append("open OdxVerif")
     o.append("")
+    if spec.prelude:
+        o.append("-- glue named by the spec of this translation (hand-written, part of the trusted rendering)")
+        o += list(spec.prelude)
+        o.append("")
     o.append(f"/-- `{func}`; `Except` = a Python exception -/")
     o.append(f"def {name}E {spec.binders} : Py.M ({lean_ty(tr.pure_ret)}) := do")
     o += tr.out
@@ -1069,6 +1217,27 @@ def render_staticlen(repo: Path) -> str:
     src = (Path(repo) / rel).read_text()
     return translate_pure_function(src, "composite_codec_get_static_bit_length", STATICLEN_SPEC, "OdxVerif.Codec.Gen",
                                    ["OdxVerif.Model.Codec", "OdxVerif.Model.PyRt"], rel, lean_name="staticBitLength")
+
+
+MUXKEY_SPEC = PureSpec(
+    params={"self": (("Rec", "Multiplexer"), None)},
+    binders="(cases : List MuxCaseD)",
+    attrs={("Multiplexer", "cases"): ("cases", ("List", ("Rec", "MuxCaseD")))},
+    # `_get_case_limits(case)` converts the LOWER-/UPPER-LIMIT texts with the key's physical type (`make_from`); for the integer
+    # switch keys the model follows it is the pair of integers the model stores in the case (abstract record interface)
+    calls={("Multiplexer", "_get_case_limits"): ("({0}.lower, {0}.upper)", [("Rec", "MuxCaseD")], tup(INT, INT), False)})
+
+
+def render_muxkey(repo: Path) -> str:
+    rel = "odxtools/multiplexer.py"
+    src = (Path(repo) / rel).read_text()
+    return translate_pure_function(src, "_get_default_case_key", MUXKEY_SPEC, "OdxVerif.Codec.Gen",
+                                   ["OdxVerif.Model.Codec", "OdxVerif.Model.PyRt"], rel, lean_name="defaultCaseKey",
+                                   cls_name="Multiplexer")
+
+
+def regenerate_muxkey(repo, verif):
+    return _write(Path(verif) / "lean" / "OdxVerif" / "Gen" / "MuxDefaultKey.lean", render_muxkey(Path(repo)))
 
 
 def _write(out: Path, new: str):
